@@ -98,6 +98,12 @@ func cmdCheck(argv []string) int {
 		timeoutS = *timeoutFlag
 	}
 	t0 := time.Now()
+	// stale replay files of earlier runs of this property
+	if old, _ := filepath.Glob(filepath.Join(*verifDir, "replay", prop+"-*")); len(old) > 0 {
+		for _, f := range old {
+			os.Remove(f)
+		}
+	}
 	scratch, err := os.MkdirTemp("", "govc-"+prop+"-")
 	if err != nil {
 		fmt.Fprintln(os.Stderr, err)
@@ -182,6 +188,13 @@ func cmdCheck(argv []string) int {
 			// vacuity: entry facts must be satisfiable
 			allObls = append(allObls, ctx.obls...)
 			allObls = append(allObls, ctx.coverObligations()...)
+			allObls = append(allObls, eng.ownObligations(fn, fc, ctx)...)
+			if fc.OwnsLists {
+				trusted["ownership assumed (owns-lists): "+n+" appends to lists held in the maps it is building; assumed exclusively owned"] = true
+			}
+			if fc.FreshResult {
+				allObls = append(allObls, eng.freshResultObligations(fn, fc, ctx)...)
+			}
 		}
 		for t := range eng.trusted {
 			trusted[t] = true
@@ -195,7 +208,7 @@ func cmdCheck(argv []string) int {
 	var wg sync.WaitGroup
 	sem := make(chan struct{}, par)
 	for i, o := range allObls {
-		if o.Status == "trivial" || o.Status == "error" {
+		if o.Status == "trivial" || o.Status == "error" || o.Solver == "ssa-dataflow" {
 			if o.Status == "trivial" {
 				o.Solver = "simplifier"
 			}
